@@ -625,6 +625,12 @@ func c18b(c *Ctx) {
 						}
 					}
 					resolve(fn, par, 0)
+				} else if !ci.Common().IsInvoke() && callee(ci) == nil {
+					if _, isBuiltin := ci.Common().Value.(*ssa.Builtin); !isBuiltin {
+						// a call through a struct field, a map value, a captured variable: whom it
+						// reaches is not known, so whether the recursion consumes is not known either
+						c.Unk(fmt.Sprintf("recursion/unknown-call-target/%s@%d", c.W.FuncKey(fn), c.T(fn).callOrd[ci]), c.W.Pos(ci.Pos()), fn.Name()+" calls a function value ("+pretty(c.term(fn, ci.Common().Value))+") whose targets the call graph cannot name: the recursion check does not cover it")
+					}
 				}
 				for _, g := range targets {
 					g = unwrapThunk(g)
